@@ -29,7 +29,7 @@ static void gen_flags_width_prec(vh_rng* r, char* s, size_t cap, int allow_prec)
   int nf = (int)vh_below(r, 4);
   for (int i = 0; i < nf; i++) { int f = (int)vh_below(r, 5); if (!used[f]) { used[f] = 1; s[o++] = flags[f]; } }
   s[o] = 0;
-  if (vh_chance(r, 45)) { o += (size_t)snprintf(s + o, cap - o, "%d", (int)vh_below(r, 31)); }
+  if (vh_chance(r, 45)) { o += (size_t)snprintf(s + o, cap - o, "%d", vh_chance(r, 12) ? (int)vh_below(r, 400) : (int)vh_below(r, 31)); }
   if (allow_prec && vh_chance(r, 45)) {
     if (vh_chance(r, 10)) { o += (size_t)snprintf(s + o, cap - o, "."); }
     else { o += (size_t)snprintf(s + o, cap - o, ".%d", (int)vh_below(r, 21)); }
@@ -316,6 +316,59 @@ static void case_random(vh_rng* r, long index) {
   free(fmt);
 }
 
+
+/* ---------- every piece length 1..640: one literal run / one conversion whose output has exactly N characters ----------
+** Sinks format piece by piece; a sink that sizes, buffers or grows per piece has its boundaries at piece lengths,
+** not at total lengths.  Four shapes x both sinks x two start positions, against snprintf. */
+static void piece_length_sweep(void) {
+  static char fmt[800], want[2000], back[2000], lit[700];
+  for (int n = 1; n <= 640; n++) {
+    for (int shape = 0; shape < 4; shape++) {
+      var args = new(Tuple);
+      switch (shape) {
+        case 0: snprintf(fmt, sizeof fmt, "%%0%dd|tail", n); snprintf(want, sizeof want, fmt, 12345); push(args, new(Int, $I(12345))); break;
+        case 1: snprintf(fmt, sizeof fmt, "<%%-%d.3f>", n); snprintf(want, sizeof want, fmt, 2.5); push(args, new(Float, $F(2.5))); break;
+        case 2: memset(lit, 'x', (size_t)n); lit[n] = 0; snprintf(fmt, sizeof fmt, "[%%s]"); snprintf(want, sizeof want, "[%s]", lit); push(args, new(String, $S(lit))); break;
+        default: memset(lit, 'y', (size_t)n); lit[n] = 0; snprintf(fmt, sizeof fmt, "%s%%%%end", lit); snprintf(want, sizeof want, "%s%%end", lit); break;
+      }
+      size_t wl = strlen(want);
+      for (int p = 0; p <= 5; p += 5) {
+        var dst = new(String, $S("#####"));
+        int ret = -1; var exc = NULL;
+        VH_CATCH(ret = print_to_with(dst, p, fmt, args), exc);
+        vh_evals(2);
+        if (exc) { vh_violation("C14:string-sink:raised", "piece of %d characters (shape %d): print_to raised %s", n, shape, vh_exc_name(exc)); }
+        else {
+          const char* got = c_str(dst);
+          if (strlen(got) != (size_t)p + wl || memcmp(got + p, want, wl) != 0 || memcmp(got, "#####", (size_t)p) != 0) {
+            vh_violation("C14:string-sink:output-differs", "a piece of exactly %d characters (shape %d, start %d): the String holds %zu characters, expected %zu", n, shape, p, strlen(got), (size_t)p + wl);
+          }
+          if (ret != p + (int)wl) { vh_violation("C14:string-sink:returned-position", "a piece of exactly %d characters (shape %d, start %d): returned %d, expected %d", n, shape, p, ret, p + (int)wl); }
+        }
+        del(dst);
+      }
+      {
+        char path[64]; snprintf(path, sizeof path, "c14-sweep-%d.tmp", vh.shard);
+        var f = new(File, $S(path), $S("w"));
+        int fret = -1; var exc = NULL;
+        VH_CATCH(fret = print_to_with(f, 2, fmt, args), exc);
+        sclose(f); del(f);
+        FILE* fp = fopen(path, "rb");
+        size_t bl = fp ? fread(back, 1, sizeof back - 1, fp) : 0;
+        if (fp) { fclose(fp); }
+        remove(path);
+        vh_evals(2);
+        if (exc) { vh_violation("C14:file-sink:raised", "piece of %d characters: print_to on a File raised %s", n, vh_exc_name(exc)); }
+        else {
+          if (bl != wl || memcmp(back, want, wl) != 0) { vh_violation("C14:file-sink:output-differs-from-string-sink", "a piece of exactly %d characters (shape %d): the file has %zu bytes, expected %zu", n, shape, bl, wl); }
+          if (fret != 2 + (int)wl) { vh_violation("C14:file-sink:returned-position", "a piece of exactly %d characters (shape %d): returned %d, expected %d", n, shape, fret, 2 + (int)wl); }
+        }
+      }
+      vh_count("piece_length_sweep_points");
+    }
+  }
+}
+
 static void fixed(void) {
   /* the Type show defect shape: %$ of a type object in the middle of a format */
   var s = new(String);
@@ -344,6 +397,9 @@ static void fixed(void) {
     del(a); del(b);
   }
   del(s);
+  vh.oplen = 0; vh.oplog[0] = 0; vh.nops = 0;
+  vh_op("piece length sweep 1..640 x 4 shapes x String/File sinks");
+  piece_length_sweep();
 }
 
 int main(int argc, char** argv) {
